@@ -306,6 +306,7 @@ func cmdReplayCases(args []string) error {
 	casesFile := fs.String("cases", "cases.ndjson", "one history per line")
 	out := fs.String("o", "trace.ndjson", "output trace")
 	mode := fs.String("mode", "direct", "direct|server")
+	withMons := fs.Bool("monitors", false, "server mode: register a v1 and a v2 monitor over everything")
 	_ = fs.Parse(args)
 	s, err := abs.LoadSchema(*schemaFile)
 	if err != nil {
@@ -358,6 +359,29 @@ func cmdReplayCases(args []string) error {
 		}
 		if err := rec.Emit(map[string]interface{}{"ev": "reset", "db": 0}); err != nil {
 			return err
+		}
+		if *mode == "server" && *withMons {
+			// one monitor per encoding over every table and column
+			for k, method := range []string{"monitor", "monitor_cond"} {
+				req := map[string]interface{}{}
+				for _, t := range s.TableNames() {
+					cols := []interface{}{}
+					for _, c := range s.Tables[t].ColNames() {
+						cols = append(cols, c)
+					}
+					req[t] = map[string]interface{}{"columns": cols, "initial": true, "insert": true, "delete": true, "modify": true}
+				}
+				m, initial, err := in.AddMonitor(fmt.Sprintf("\"c%d\"", k), method, req)
+				if err != nil {
+					in.Close()
+					return err
+				}
+				if err := rec.Emit(map[string]interface{}{"ev": "monitor", "db": 0, "mon": m.ID, "enc": m.Enc,
+					"method": method, "req": req, "initial": initial}); err != nil {
+					in.Close()
+					return err
+				}
+			}
 		}
 		for _, tx := range hist {
 			var ops []abs.AOp
